@@ -36,6 +36,36 @@ def numTruthy (v : α) : Bool := !(Arith.eq v zero)
 /-- Rust `logic_number`. -/
 def logicNumber (b : Bool) : α := if b then one else zero
 
+/-- divisor test of `may_be_undefined`: `matches!(rhs, Exp::Number(d) if d != 0.0)` (NaN counts as
+non-zero, as in Rust). -/
+def isNonzeroLit : Exp α → Bool
+  | .num d => Arith.ne d zero
+  | _ => false
+
+mutual
+/-- Port of `Exp::may_be_undefined` (rooc 9f62afd): the (already simplified) expression contains a
+division whose divisor is not a non-zero literal, or an empty min/max. -/
+def mayBeUndefined : Exp α → Bool
+  | .num _ => false
+  | .var _ => false
+  | .bin .div l r => !(isNonzeroLit r) || mayBeUndefined l || mayBeUndefined r
+  | .bin _ l r => mayBeUndefined l || mayBeUndefined r
+  | .xor l r => mayBeUndefined l || mayBeUndefined r
+  | .implies l r => mayBeUndefined l || mayBeUndefined r
+  | .iff l r => mayBeUndefined l || mayBeUndefined r
+  | .un _ e => mayBeUndefined e
+  | .abs e => mayBeUndefined e
+  | .not e => mayBeUndefined e
+  | .min es => es.isEmpty || mayBeUndefinedAny es
+  | .max es => es.isEmpty || mayBeUndefinedAny es
+  | .and es => mayBeUndefinedAny es
+  | .or es => mayBeUndefinedAny es
+/-- `exps.iter().any(|e| e.may_be_undefined())` -/
+def mayBeUndefinedAny : List (Exp α) → Bool
+  | [] => false
+  | e :: es => mayBeUndefined e || mayBeUndefinedAny es
+end
+
 /-- the two loops of `simplify_logic_nary` applied to children that are already simplified. -/
 def naryFlatten (isAnd : Bool) : List (Exp α) → List (Exp α)
   | [] => []
@@ -45,7 +75,8 @@ def naryFlatten (isAnd : Bool) : List (Exp α) → List (Exp α)
     | false, .or inner => inner ++ naryFlatten isAnd es
     | _, e => e :: naryFlatten isAnd es
 
-/-- second loop: `none` = short-circuit on the absorbing constant. -/
+/-- second loop when no flattened operand may be undefined: `none` = short-circuit on the absorbing
+constant. -/
 def naryScan (isAnd : Bool) : List (Exp α) → Option (List (Exp α))
   | [] => some []
   | .num v :: es =>
@@ -55,8 +86,20 @@ def naryScan (isAnd : Bool) : List (Exp α) → Option (List (Exp α))
     else naryScan isAnd es
   | e :: es => (naryScan isAnd es).map (e :: ·)
 
+/-- second loop when some flattened operand may be undefined (`any_undefined`): no short-circuit;
+identity constants are dropped, absorbing constants stay in the result. -/
+def naryKeep (isAnd : Bool) : List (Exp α) → List (Exp α)
+  | [] => []
+  | .num v :: es =>
+    if numTruthy v == isAnd then naryKeep isAnd es else .num v :: naryKeep isAnd es
+  | e :: es => e :: naryKeep isAnd es
+
+/-- the second loop of `simplify_logic_nary` (rooc 9f62afd) on the flattened list. -/
+def naryStep (isAnd : Bool) (flattened : List (Exp α)) : Option (List (Exp α)) :=
+  if mayBeUndefinedAny flattened then some (naryKeep isAnd flattened) else naryScan isAnd flattened
+
 def naryCore (isAnd : Bool) (simplified : List (Exp α)) : Exp α :=
-  match naryScan isAnd (naryFlatten isAnd simplified) with
+  match naryStep isAnd (naryFlatten isAnd simplified) with
   | none => .num (if isAnd then zero else one)
   | some [] => .num (logicNumber isAnd)
   | some [e] => e
@@ -96,7 +139,7 @@ def mulCore (l r : Exp α) : Exp α :=
   match l, r with
   | .num a, .num b => .num (mul a b)
   | l, r =>
-    if isNumEq l zero || isNumEq r zero then .num zero
+    if (isNumEq l zero && !(mayBeUndefined r)) || (isNumEq r zero && !(mayBeUndefined l)) then .num zero
     else if isNumEq l one then r
     else if isNumEq r one then l
     else .bin .mul l r
